@@ -100,9 +100,35 @@ def equalish_defaults(row):
     return []
 
 
+def injected_lists(row):
+    """injected given as a list that also names something the function takes only through **kwargs (tolerated), before or
+    after the real parameter: the wrapper's own signature must lose exactly the real parameter, as with the single name."""
+    from boltons import funcutils
+    sig = row["sig"]
+    if row["mode"] != "inject" or not sig["dstar"]:
+        return []
+    want_params = [[NAME[p[0]], p[1], p[2]] for p in row["wparams"]]
+    inj = NAME[row["arg"]]
+    bad = []
+    for names in (["via_kwargs", inj], [inj, "via_kwargs"], ["via_kwargs", inj, "also_kw"]):
+        f = make_func(sig, False, False)
+
+        def wrapper(*a, **kw):
+            return None
+        try:
+            w = funcutils.wraps(f, injected=list(names))(wrapper)
+            got = [[n, k, d] for n, k, d, _ in params_of(w)]
+        except Exception as ex:
+            bad.append(("injected=%r" % (names,), "wraps-raised:" + core.exc_name(ex), str(ex)[:200]))
+            continue
+        if got != want_params:
+            bad.append(("injected=%r" % (names,), "signature", {"wrapper": got, "expected": want_params}))
+    return bad
+
+
 def run_row(row):
     from boltons import funcutils
-    bad = equalish_defaults(row)
+    bad = equalish_defaults(row) + injected_lists(row)
     sig, mode = row["sig"], row["mode"]
     want_params = [[NAME[p[0]], p[1], p[2]] for p in row["wparams"]]
     seen = row["seen"]
